@@ -233,6 +233,11 @@ def streams(ctx):
                 parts = [message(1, 1), mid] + ([message(2, 0)] if where == "middle" else [])
                 out.append((f"boundary-{service:#x}-{method:#x}-{client:#x}-{mtype:#x}-{plen}-{where}", b"".join(parts), None,
                             (len(out) % 2) == 1))
+    # every payload length of 0..4096 bytes (thorough: ..9000): one message of that length followed by a short one,
+    # cut at the header end, in the middle of the payload, at the message boundary
+    for plen in range(0, 9001 if ctx.thorough else 4097):
+        st = message(3, plen) + message(1, 1)
+        out.append((f"len{plen}", st, sorted({0, 16, 16 + plen // 2, 16 + plen, len(st)}), False))
     # long streams: cut positions restricted to a window around every boundary plus a 509-byte grid
     win = 17 if ctx.thorough else 3
     longs = [(255, 256, 4095, 4096, 0, 1, 255, 17)] if not ctx.thorough else [
@@ -262,7 +267,7 @@ def check(ctx):
         states=sum(r["states"] for r in res), transitions=sum(r["transitions"] for r in res),
         traces_validated_against_impl=sum(r["transitions"] for r in res), samples=samples, streams=len(jobs),
         all_states_path_independent=all(r["states"] <= 2 * r["positions"] for r in res),
-        largest=[r for r in res if r["bytes"] > 1000], exhaustive=True,
+        largest=[r for r in res if r["stream"].startswith("long")], exhaustive=True,
         note="states = distinct canonical (reader, task, delivered) snapshots; for a segmentation-independent reader "
              "this equals the number of (prefix, EOF) pairs",
     )
